@@ -210,3 +210,20 @@ def issSignAT (c : IssAccessTokenClaims) (s : IssSigner) : Go.R String := s.key.
 def issNeedsRefreshToken (r : IssRequest) (_c : IssClient) : Bool := r.needsRefreshToken
 
 end Hand
+
+/-- a Go `any` that holds the claims of a token about to be signed (a helper shared by both token kinds takes `claims any`) -/
+inductive IssAnyClaims where
+  | id (c : IssIDTokenClaims)
+  | at (c : IssAccessTokenClaims)
+  deriving Inhabited
+
+instance : Coe IssIDTokenClaims IssAnyClaims := ⟨.id⟩
+instance : Coe IssAccessTokenClaims IssAnyClaims := ⟨.at⟩
+
+namespace Hand
+/-- `crypto.Sign(claims, signer)` for either kind of claims -/
+def issSignAny (c : IssAnyClaims) (s : IssSigner) : Go.R String :=
+  match c with
+  | .id c => Hand.issSignID c s
+  | .at c => Hand.issSignAT c s
+end Hand
